@@ -401,4 +401,57 @@ def contacts (b : Base) : List Op → Option (List (Int × Int))
       | none => none
       | some cs => some (if o.contacted then (o.stamp, b'.interval) :: cs else cs)
 
+/-! ### trackerAnnounce (tor/tor.go): the tier walk of one slow tick
+
+`tn := t.rand.Perm(len(t.trackers))` is an input (`perm`); what `GetState` answers for each
+tracker is an input too (`TState`; for real trackers it is `getState` above, see `tierStates`).
+The walk is transcribed with its control flow: `return` after the `go trackerAnnounceSingle`,
+`break` to the next tier on any state other than Error.  It yields the trackers whose
+`GetState` was called, in order, and the announces started. -/
+
+inductive TState | disabled | error | busy | idle | ready
+  deriving DecidableEq, Repr
+
+structure Walk where
+  visited : List (Nat × Nat) := []     -- (tier, position) of every GetState call, in order
+  started : List (Nat × Nat) := []     -- announces started (`go trackerAnnounceSingle`)
+  returned : Bool := false             -- the function returned
+  deriving Repr
+
+/-- `for _, tr := range tl { … }` from position `j` of tier `ti` -/
+def walkTier (ti : Nat) : Nat → List TState → Walk
+  | _, [] => {}
+  | j, s :: rest =>
+    if s = .ready then { visited := [(ti, j)], started := [(ti, j)], returned := true }
+    else if s ≠ .error then { visited := [(ti, j)] }                         -- skip to next tier
+    else
+      let w := walkTier ti (j + 1) rest
+      { w with visited := (ti, j) :: w.visited }
+
+/-- `for _, i := range tn { tl := t.trackers[i]; … }`; `none` = index out of range -/
+def walkTiers (tiers : List (List TState)) : List Nat → Option Walk
+  | [] => some {}
+  | i :: perm =>
+    match tiers[i]? with
+    | none => none
+    | some tl =>
+      let w := walkTier i 0 tl
+      if w.returned then some w
+      else match walkTiers tiers perm with
+        | none => none
+        | some w' => some { visited := w.visited ++ w'.visited, started := w.started ++ w'.started,
+                            returned := w'.returned }
+
+/-- what `GetState` of a modelled tracker answers at time `now` -/
+def stateOf (b : Base) (now : Int) : TState :=
+  match getState b now with
+  | some (_, .ready, _) => .ready
+  | some (_, .busy, _) => .busy
+  | some (_, .error, _) => .error
+  | some (_, .idle, _) => .idle
+  | none => .busy
+
+def tierStates (tiers : List (List Base)) (now : Int) : List (List TState) :=
+  tiers.map fun tl => tl.map fun b => stateOf b now
+
 end Storrent.Tracker
